@@ -133,7 +133,7 @@ BinOp(M, op, x, y) ==      \* result value or "bad"
 TypeName(v) == CASE v.t = "int" -> "int" [] v.t = "bool" -> "bool" [] v.t = "str" -> "string" [] OTHER -> v.t
 
 \* ---------------------------------------------------------------- the evaluator
-RECURSIVE Ev(_, _), EvNode(_, _), TryClauses(_, _, _, _), EvSeq(_, _, _), EvArgs(_, _, _, _), Call(_, _, _), CallFn(_, _, _, _), TryFuns(_, _, _, _), While(_, _), ForLoop(_, _),
+RECURSIVE Ev(_, _), EvNode(_, _), TryClauses(_, _, _, _), Interp(_, _, _, _), EvSeq(_, _, _), EvArgs(_, _, _, _), Call(_, _, _), CallFn(_, _, _, _), TryFuns(_, _, _, _), While(_, _), ForLoop(_, _),
           RFor(_, _, _, _), Cases(_, _, _, _, _), ElseIfs(_, _, _), VecLit(_, _, _, _), MapLit(_, _, _, _, _), Assign(_, _, _)
 
 \* evaluates a sequence of statements; the value of the last one is the value of the block
@@ -274,6 +274,15 @@ Apply2(M, op, da, db) ==
   ELSE IF v.t = "bad" /\ v.s = "ee" /\ fs # <<>> THEN TryFuns(M, Ordered(M, fs, <<da, db>>), 1, <<da, db>>)
   ELSE IF v.t = "bad" THEN Err(M, IF v.s = "arith" THEN "ex" ELSE "ee") ELSE IF v.t = "str" THEN Temp(M, v) ELSE CTemp(M, v)
 
+\* "text ${e} text": the parts in order, every ${e} evaluated in the current scope and rendered with to_string
+Interp(parts, i, M, acc) ==
+  IF i > Len(parts) THEN Temp(M, VStr(acc))
+  ELSE IF parts[i].k = "txt" THEN Interp(parts, i + 1, M, acc \o parts[i].v)
+  ELSE LET a == Ev(parts[i].e, M) IN
+       IF a.ctl # "norm" THEN a
+       ELSE IF ~Printable(a.M, Val(a.M, a.d)) THEN Err(a.M, "ee")
+       ELSE Interp(parts, i + 1, a.M, acc \o ToStr(a.M, Val(a.M, a.d)))
+
 \* the clauses in order: an untyped clause takes anything (a thrown value or an engine error); a typed one takes a thrown value of that type
 TryClauses(cl, i, b, M) ==
   IF i > Len(cl) THEN b                                                       \* no clause accepted it: it keeps travelling, unchanged
@@ -407,6 +416,7 @@ EvNode(e, M) ==
                         IF Val(c.M, c.d).t # "vec" THEN Err(c.M, "ee") ELSE RFor(e, c.M.objs[Val(c.M, c.d).r].e, 1, c.M))
     [] e.k = "switch" -> (LET s == Ev(e.e, M) IN IF s.ctl # "norm" THEN s ELSE
                           LET r == Cases(e.cases, 1, PushScope(s.M), Val(s.M, s.d), FALSE) IN R(PopScope(r.M), r.ctl, IF r.ctl = "ret" THEN r.d ELSE 0))
+    [] e.k = "interp" -> Interp(e.parts, 1, M, "")
     [] e.k = "throw" -> (LET a == Ev(e.e, M) IN IF a.ctl # "norm" THEN a ELSE IF a.d = 0 THEN Err(a.M, "ee") ELSE Thr(a.M, a.d))
     [] e.k = "try" ->             \* try { b } catch(ty n) { h } ... finally { f }   (C10's reference semantics inside the language model)
         (LET b == Block(e.b, PushScope(M))                      \* the Try node's own scope around the body block
